@@ -46,6 +46,7 @@ type Obligation struct {
 	Second  string
 	Watch   []watchTerm
 	KF      bool
+	Auto    bool // claimed only through the automatic support closure (loop invariants of listed functions)
 	SMTFile string
 }
 
